@@ -141,9 +141,6 @@ func jdocShape(doc *ON) *shapeErr {
 			if e := optStr(s, "annotation", w); e != nil {
 				return e
 			}
-			if !strings.HasPrefix(name, "@") {
-				return se("server-name", "server name %q does not start with @", name)
-			}
 		}
 	}
 	if ut := doc.Get("userTypes"); ut != nil {
@@ -167,9 +164,6 @@ func jdocShape(doc *ON) *shapeErr {
 			}
 			if e := shapeSchema(t.Get("schema"), w+"/schema"); e != nil {
 				return e
-			}
-			if !strings.HasPrefix(name, "@") {
-				return se("userType-name", "user type name %q does not start with @", name)
 			}
 		}
 	}
@@ -448,7 +442,7 @@ func shapeSchema(s *ON, w string) *shapeErr {
 			}
 			seen := map[string]bool{}
 			for _, v := range l.Vals {
-				if !v.IsStr() || !strings.HasPrefix(v.Str, "@") {
+				if !v.IsStr() {
 					return se("used-list-item", "%s: %s item %v", w, k, v.Canon(false))
 				}
 				if seen[v.Str] {
